@@ -83,6 +83,7 @@ pub struct RestartStats {
 	pub payments_failed: u64,
 	pub claimed_then_sent: u64,
 	pub dust_forfeited_after_stale_restart: u64,
+	pub parts_checked: u64,
 }
 
 /// What the harness knows about the persisted state at the moment of a manager snapshot.
@@ -120,6 +121,12 @@ pub struct RestartOracle {
 	/// per node: payments whose PaymentSent was handled by the running manager or an ancestor of it (a
 	/// restart from snapshot S continues the lineage of S, not that of the manager that crashed)
 	sent_lineage: BTreeMap<usize, BTreeSet<[u8; 32]>>,
+	/// (node, payment hash) -> HTLC parts delivered to that node: (channel, htlc id, amount)
+	parts_in: BTreeMap<(usize, [u8; 32]), BTreeSet<(ChannelId, u64, u64)>>,
+	/// (node, channel, htlc id) the node has sent update_fulfill_htlc for
+	fulfils_out: BTreeSet<(usize, ChannelId, u64)>,
+	/// (node, payment hash) -> outpoints the node spent in broadcast transactions with the preimage in the witness
+	onchain_preimage_spends: BTreeMap<(usize, [u8; 32]), BTreeSet<bitcoin::OutPoint>>,
 }
 
 pub fn dust_floor_msat(sim: &Sim) -> u64 {
@@ -184,6 +191,9 @@ impl RestartOracle {
 			holder_updates: BTreeMap::new(),
 			fails_emitted: BTreeSet::new(),
 			sent_lineage: BTreeMap::new(),
+			parts_in: BTreeMap::new(),
+			fulfils_out: BTreeSet::new(),
+			onchain_preimage_spends: BTreeMap::new(),
 		}
 	}
 
@@ -254,6 +264,12 @@ impl RestartOracle {
 				},
 				M::S(SEvent::Emit { from, wire: Wire::Fail(m), .. }) => {
 					self.fails_emitted.insert((from, m.channel_id));
+				},
+				M::S(SEvent::Deliver { to, wire: Wire::Add(m), .. }) => {
+					self.parts_in.entry((to, m.payment_hash.0)).or_default().insert((m.channel_id, m.htlc_id, m.amount_msat));
+				},
+				M::S(SEvent::Emit { from, wire: Wire::Fulfill(m), .. }) => {
+					self.fulfils_out.insert((from, m.channel_id, m.htlc_id));
 				},
 				M::S(SEvent::Emit { from, wire: Wire::FailMalformed(m), .. }) => {
 					self.fails_emitted.insert((from, m.channel_id));
@@ -349,6 +365,16 @@ impl RestartOracle {
 				},
 				M::S(SEvent::Broadcast { node, tx, height, verdict }) => {
 					self.stats.broadcasts_checked += 1;
+					for i in tx.input.iter() {
+						for w in i.witness.iter() {
+							if w.len() == 32 {
+								let h = sha256::Hash::hash(w).to_byte_array();
+								if sim.pays.iter().any(|p| p.hash.0 == h) {
+									self.onchain_preimage_spends.entry((node, h)).or_default().insert(i.previous_output);
+								}
+							}
+						}
+					}
 					match verdict {
 						Ok(_) | Err(Reject::Duplicate) | Err(Reject::MempoolConflict(_)) | Err(Reject::AlreadySpent(_, _)) => {},
 						Err(Reject::MissingInput(op)) => {
@@ -384,6 +410,25 @@ impl RestartOracle {
 			// claim is committed (the properties' stated exception): only non-dust amounts are asserted, with a
 			// margin of twice the highest current feerate estimate
 			let dust_floor_msat = dust_floor_msat(sim);
+			// a payment the recipient reported as claimed is collected in full: every non-dust part that was
+			// delivered to it is fulfilled by message or taken on chain with the preimage (all-or-nothing
+			// across the crash: the preimage is out, so an uncollected part is lost to the previous hop)
+			for p in sim.pays.iter() {
+				if !p.claimed_event {
+					continue;
+				}
+				let Some(parts) = self.parts_in.get(&(p.to, p.hash.0)) else { continue };
+				let need: Vec<_> = parts.iter().filter(|(_, _, amt)| *amt >= dust_floor_msat).collect();
+				let by_msg = need.iter().filter(|(c, id, _)| self.fulfils_out.contains(&(p.to, *c, *id))).count();
+				let on_chain = self.onchain_preimage_spends.get(&(p.to, p.hash.0)).map(|s| s.len()).unwrap_or(0);
+				self.stats.parts_checked += need.len() as u64;
+				if by_msg + on_chain < need.len() {
+					return Err(fail(
+						"claimed-part-not-collected",
+						format!("node {} reported PaymentClaimed for pay#{} but collected only {} of its {} non-dust parts ({} fulfilled by message, {} HTLC outputs spent with the preimage); parts (channel, htlc id, msat): {:?}", p.to, p.idx, by_msg + on_chain, need.len(), by_msg, on_chain, need),
+					));
+				}
+			}
 			for p in sim.pays.iter() {
 				if p.claimed_event && p.amt_msat >= dust_floor_msat {
 					let t = self.terminal.get(&(p.from, p.hash.0)).cloned().unwrap_or((0, 0));
